@@ -75,7 +75,7 @@ func runNode(cases []nodeCase, workdir string, par int) (map[int][]nodeResult, e
 			res := filepath.Join(workdir, fmt.Sprintf("results-%d.jsonl", w))
 			js, _ := json.Marshal(part)
 			os.WriteFile(in, js, 0644)
-			cmd := exec.Command("node", "--stack-size=2000", filepath.Join(nodeDir(), "runner.js"), in, res)
+			cmd := exec.Command("node", "--stack-size=2000", "--experimental-vm-modules", "--no-warnings", filepath.Join(nodeDir(), "runner.js"), in, res)
 			b, err := cmd.CombinedOutput()
 			f, ferr := os.Open(res)
 			if ferr == nil {
